@@ -20,6 +20,40 @@ for name, f in (("raw", raw), ("inline", inl or raw)):
             if "--rows" in sys.argv:
                 for r in models.rejections(f, k):
                     print("   ", r["kind"], r.get("error"), [models.show_canon(t)[:100] for t in r.get("triggers", [])])
+            if "--cfg" in sys.argv:
+                def sp(pl):
+                    return pl.get("s") or "_%d" % pl["l"]
+                def so(o):
+                    if not isinstance(o, dict): return str(o)
+                    if o.get("o") in ("copy", "move"): return ("mv " if o["o"] == "move" else "") + sp(o["place"])
+                    if o.get("o") == "const":
+                        c = o["c"]; v = c.get("v", {})
+                        return "const %s" % (v.get("v", v.get("s", c.get("path", v.get("k", "?")))) if isinstance(v, dict) else v)
+                    return str(o)[:60]
+                def srv(rv):
+                    r = rv["r"]
+                    if r == "use": return so(rv["op"])
+                    if r == "ref": return "&%s%s" % ("mut " if rv.get("bk") == "mut" else "", sp(rv["place"]))
+                    if r == "aggregate": return "%s%s(%s)" % (rv.get("path", rv.get("ak")), "::" + str(rv.get("variant")) if rv.get("variant") else "", ", ".join(so(x) for x in rv.get("ops", [])))
+                    if r == "discr": return "discr(%s)" % sp(rv["place"])
+                    if r in ("binop", "checked_binop"): return "%s %s %s" % (so(rv["a"]) if "a" in rv else so(rv["ops"][0]), rv.get("op"), so(rv["b"]) if "b" in rv else so(rv["ops"][1]))
+                    return r + " " + " ".join("%s=%s" % (kk, so(vv) if isinstance(vv, dict) and "o" in vv else (sp(vv) if isinstance(vv, dict) and "l" in vv else str(vv)[:40])) for kk, vv in rv.items() if kk != "r")
+                for i, bl in enumerate(b.blocks):
+                    if bl.get("dead") or bl["cleanup"]:
+                        continue
+                    print("  bb%d:" % i)
+                    for st in bl["stmts"]:
+                        if st.get("s") == "assign":
+                            print("      %s = %s   [%s]" % (sp(st["place"]), srv(st["rv"])[:150], st.get("line")))
+                        else:
+                            print("      %s" % str({kk: vv for kk, vv in st.items()})[:120])
+                    t = bl["term"]
+                    if t["t"] == "call":
+                        print("      %s = CALL %s(%s) -> bb%s" % (sp(t["dest"]), t["callee"].get("path") or t["callee"].get("full") or t["callee"], ", ".join(so(a) for a in t["args"]), t.get("target")))
+                    elif t["t"] == "switch":
+                        print("      SWITCH %s %s" % (so(t.get("discr", t.get("op", ""))), t.get("targets")))
+                    else:
+                        print("      %s" % {kk: (sp(vv) if isinstance(vv, dict) and "l" in vv else vv) for kk, vv in t.items() if kk not in ("fn_span", "unwind")})
             if "--mir" in sys.argv:
                 for i, bl in enumerate(b.blocks):
                     if bl.get("dead") or bl["cleanup"]:
